@@ -177,6 +177,9 @@ def apply_synth(g, args):
 
 
 def rand_bytes(arrname, lenname, g):
+    whole = g.get(arrname.rsplit('.', 1)[0])
+    if isinstance(whole, (bytes, bytearray)):
+        return bytes(whole)
     arr = g.get(arrname)
     n = g.get(lenname)
     if isinstance(arr, list):
@@ -471,7 +474,10 @@ def post_process(c, d, tier):
             stats['unavailable'] += 1
             stats['why'] = r.get('why')
         return r
-    rng = random.Random(seed * 1000003 + hash(c.qualname) % 1000)
+    rng = random.Random(seed * 1000003 + sum(map(ord, c.qualname)) % 1000)
+    # (0) inputs recorded in the contract as historically interesting
+    for sd in getattr(c, 'native_seeds', []):
+        attempt(dict(sd), rng)
     # (a) replay models
     for o in bad:
         m = o.get('model') or o.get('candidate_model')
